@@ -154,6 +154,27 @@ ALL['C17'] = {
                                                      'file': 0, 'mutation': ['truncate', 2, 0]}),
 }
 
+duplang = lang([asset('Host', [step('access'), step('breach')]), asset('Net', [], parent='Host'), asset('Data', [step('read')])],
+               [assoc('Conn', 'Host', 'hosts', 'Host', 'nets'), assoc('Conn', 'Host', 'owners', 'Data', 'datas'),
+                assoc('Owns', 'Host', 'users', 'Host', 'peers')])
+def LA(i, t, n):
+    return {'id': i, 'name': n, 'type': t, 'defenses': {}}
+ALL['C18'] = {
+    'scad-two-entry-points-on-one-asset': ('legacy-vs-native', {'spec': duplang, 'assets': [LA(0, 'Host', 'h')], 'links': [],
+        'attackers': [{'id': 100, 'name': 'Attacker:100', 'entry_points': [[0, ['access', 'breach']]]}], 'enc': 2, 'orient': [1, 0]}),
+    'scad-same-named-association-between-subtypes': ('legacy-vs-native', {'spec': duplang, 'assets': [LA(-4, 'Net', 'n1'), LA(5, 'Net', 'n2')],
+        'links': [{'assoc': 0, 'left': [-4], 'right': [5]}], 'attackers': [], 'enc': 2, 'orient': [0]}),
+}
+ALL['C19'] = {
+    'two-links-between-the-same-pair': ('export-import', {'spec': duplang, 'model': model([A('Host', 'n0'), A('Host', 'n1'), A('Data', 'd')],
+                                                                                          [(0, [0], [1]), (2, [0], [1])])}),
+    'self-link': ('export-import', {'spec': duplang, 'model': model([A('Host', 'n0')], [(2, [0], [0])])}),
+    'same-named-association-between-subtypes': ('export-import', {'spec': duplang, 'model': model([A('Net', 'n0'), A('Net', 'n1'), A('Data', 'd')],
+                                                                                                   [(0, [0], [1]), (1, [0], [2])])}),
+    'opposite-links-of-reflexive-association': ('export-import', {'spec': duplang, 'model': model([A('Host', 'n0'), A('Host', 'n1'), A('Host', 'n2')],
+                                                                                                   [(2, [0], [1]), (2, [1], [0])])}),
+}
+
 if __name__ == '__main__':
     for pid, cases in ALL.items():
         out = os.path.join(ROOT, pid)
